@@ -161,6 +161,41 @@ def run_deductive(spec, res, tier):
     return res
 
 
+def run_frame(spec, res, tier):
+    """frame mode (C08): modifies / result-freshness clauses checked function by function on the real AST"""
+    if not spec.get('frame'):
+        return res
+    from . import frame
+    from contracts import frames
+    ledger = load_json(os.path.join(VERIF, 'ledger.json'), {})
+    repo = frame.Repo(REPO, frames.MODULES, frames.EXPLICIT)
+    fr = frame.check_module_functions(repo, list(repo.funcs))
+    import hashlib
+    for o in fr.obligations:
+        res.obligations += 1
+        key = key_of(o['name'])
+        if o['ok']:
+            res.discharged += 1
+            res.by_backend['frame-dataflow'] = res.by_backend.get('frame-dataflow', 0) + 1
+            if len(res.samples) < 10 and res.obligations % 97 == 1:
+                res.samples.append(dict(obligation=o['name'], kind='frame', verdict='proved', clause=o['why']))
+        else:
+            rec = dict(obligation=o['name'], key=key, fn=o['fn'], verdict='refuted', backend='frame-dataflow', line=o['line'],
+                       solver_output={'frame': o['why']}, in_ledger=key in ledger, source_changed=True, model_input=None)
+            fnkeys = [k for k in ledger if k.startswith(o['name'].split('#')[0] + '#frame')]
+            if key in ledger or not fnkeys:
+                # the clause of this function was discharged on the baseline (or the function is new): a failed frame obligation
+                res.violations.append(rec)
+            else:
+                res.undecided.append(dict(rec, why='frame obligation of a kind this function did not have on the baseline'))
+            res.samples.append(dict(obligation=o['name'], kind='frame', verdict='FAILED', clause=o['why']))
+    res.functions.update({q: 'frame-clause' for q in list(repo.funcs)[:0]})
+    res.frame_functions = len(repo.funcs)
+    res.assumptions.add('frame mode: calls that resolve to no scanned function are treated as non-mutating and returning fresh objects: '
+                        + ', '.join(sorted(fr.unresolved)))
+    return res
+
+
 def run_bounded(spec, res, tier, seed):
     known = load_json(os.path.join(VERIF, 'known_findings.json'), {'findings': [], 'fixed': []})
     known_keys = {(f['property'], f['key']): f for f in known.get('findings', [])}
@@ -285,6 +320,7 @@ def main(pid, tier, seed, replay=None):
         return do_replay(spec, res, replay)
     try:
         run_deductive(spec, res, tier)
+        run_frame(spec, res, tier)
         run_ground(spec, res, tier)
         run_bounded(spec, res, tier, seed)
     except Exception:
@@ -336,7 +372,10 @@ def main(pid, tier, seed, replay=None):
         seen_keys.add(k_)
         uniq.append(v)
     res.violations = uniq
-    for i, v in enumerate(res.violations):
+    # deductive / frame violations first; at most 10 VIOLATION lines (all are counted in the evidence file)
+    res.violations.sort(key=lambda v_: 1 if v_.get('bounded') else 0)
+    total_viol = len(res.violations)
+    for i, v in enumerate(res.violations[:10]):
         path = write_replay(res, v, i)
         tail = '' if v.get('confirmed', True) else ' no-failing-input-found'
         lines.append(f'VIOLATION property={pid} replay={path}{tail}')
@@ -352,6 +391,8 @@ def main(pid, tier, seed, replay=None):
         print('UNDECIDED:', u.get('obligation'), '-', u.get('why', ''))
     for l in lines:
         print(l)
+    if total_viol > 10:
+        print(f'(+{total_viol - 10} further violations not listed)')
     print(f'{pid} {tier}: obligations={res.obligations} discharged={res.discharged} '
           f'bounded_cases={sum(b.get("evaluations", 0) for b in res.bounded)} violations={len(res.violations)} '
           f'known={len(res.known)} undecided={len(res.undecided)} errors={len(res.errors)} wall={time.time()-t0:.1f}s')
@@ -399,7 +440,7 @@ def write_evidence(spec, res, wall):
         trusted_base=sorted(res.trusted) + spec.get('trusted_base', []),
         functions_under_contract=res.functions,
         obligations_by_backend=res.by_backend, solver_time_s=round(res.solver_ms / 1000, 2),
-        ground=res.ground, canaries=res.canaries, out_of_subset=res.out_of_subset,
+        ground=res.ground, canaries=res.canaries, frame_functions_checked=getattr(res, 'frame_functions', 0), out_of_subset=res.out_of_subset,
         bounded=res.bounded, undecided=[u.get('obligation') for u in res.undecided],
         known_findings=res.known, uncovered_clauses=spec.get('uncovered_clauses', []),
         samples=res.samples[:16] or [dict(note='no deductive obligations in this check')],
